@@ -43,18 +43,19 @@ def _alarm(signum, frame):
 
 
 class time_limit:
-    """Per-execution wall budget; exceeding it is a termination violation for the caller."""
+    """Per-execution budget in CPU seconds of this process (robust against a loaded machine);
+    exceeding it is a termination violation for the caller."""
 
     def __init__(self, seconds):
         self.seconds = seconds
 
     def __enter__(self):
-        self.old = signal.signal(signal.SIGALRM, _alarm)
-        signal.setitimer(signal.ITIMER_REAL, self.seconds)
+        self.old = signal.signal(signal.SIGVTALRM, _alarm)
+        signal.setitimer(signal.ITIMER_VIRTUAL, self.seconds)
 
     def __exit__(self, *a):
-        signal.setitimer(signal.ITIMER_REAL, 0)
-        signal.signal(signal.SIGALRM, self.old)
+        signal.setitimer(signal.ITIMER_VIRTUAL, 0)
+        signal.signal(signal.SIGVTALRM, self.old)
         return False
 
 
